@@ -74,7 +74,7 @@ func tunnel(c *harness.Ctx) {
 			a.NoFaults = true
 			b.thresholdSel = c.Choose(6, "threshold")
 			if c.Cfg["damage"] != "" && c.Choose(3, "damage?") == 2 {
-				b.damageSel = 1 + c.Choose(5, "tunnel-damage")
+				b.damageSel = 1 + c.Choose(6, "tunnel-damage")
 			}
 			plan[t] = append(plan[t], &pair{a, b})
 			total += 2
@@ -213,6 +213,9 @@ func damageTunnel(c *harness.Ctx, b *Call, wire []byte, e *Exchange) []byte {
 			kind = "tunnel-unknown-part"
 			out = rebuild(uri, remix(append(parts[:2:2], part{"text/plain", []byte("hello")})), "")
 		}
+	case 6: // the override header with a body that is neither a form nor multipart
+		kind = "tunnel-foreign-content-type"
+		out = rebuild(uri, body, []string{"text/plain", "application/json", "multipart/mixed"}[len(body)%3])
 	case 5: // empty query part
 		if len(parts) == 2 {
 			kind = "tunnel-empty-query-part"
